@@ -80,8 +80,10 @@ class VObj(V):
 
 
 class VAny(V):
-    def __init__(self, t):
+    """An opaque value.  notnone=True: known not to be None (an object returned by a library call)."""
+    def __init__(self, t, notnone=False):
         self.t = t
+        self.notnone = notnone
 
     def __repr__(self):
         return 'VAny(%s)' % self.t
